@@ -1,6 +1,6 @@
 (* Dispatcher of the extracted model binary: one S-expression in, one out. *)
 From Coq Require Import List String.
-From EinxV Require Import Base.Sexp Model.ParseIO Model.LoopIO Model.IrIO Model.OptIO Model.RegistryIO Model.SolveIO Model.LowerIO Model.JoinIO.
+From EinxV Require Import Base.Sexp Model.ParseIO Model.LoopIO Model.IrIO Model.OptIO Model.RegistryIO Model.SolveIO Model.LowerIO Model.JoinIO Model.TracerKeyIO.
 Import ListNotations.
 Open Scope string_scope.
 
@@ -15,6 +15,7 @@ Definition run (s : sexp) : sexp :=
     else if String.prefix "solve_" cmd then run_solve cmd arg
     else if String.prefix "lower_" cmd then run_lower cmd arg
     else if String.prefix "join_" cmd then run_join cmd arg
+    else if String.prefix "tracerkey_" cmd then run_tracerkey cmd arg
     else bad "unknown command"
   | _ => bad "expected (cmd arg)"
   end.
